@@ -5,6 +5,8 @@ import PolyplyVerif.Model.Coords
 import Mathlib.Tactic.Linarith
 import Mathlib.Tactic.Ring
 import Mathlib.Algebra.Order.Round
+import Mathlib.Data.Rat.Floor
+import Mathlib.Algebra.Order.Field.Basic
 import Mathlib.Analysis.SpecialFunctions.Pow.Real
 
 namespace PolyplyVerif.Proofs.Coords
@@ -104,6 +106,131 @@ theorem backmap_places {P : Type} (place : P → Nat → P) (m : Mol P) (h1 : m.
   · simp only [hb]
     simp only [Bool.not_eq_true] at hb
     simpa [hb] using hi
+
+/-! ### start grid -/
+
+theorem ceilInt_eq (q : Rat) : ceilInt q = ⌈q⌉ := by
+  unfold ceilInt
+  have : (-q).floor = ⌊-q⌋ := rfl
+  rw [this, Int.floor_neg, neg_neg]
+
+/-- index `i` is produced by `np.mgrid[0:b:s]` iff `i * s < b` (exact arithmetic, `s > 0`) -/
+theorem lt_mgridCount (b s : Rat) (hs : 0 < s) (i : Nat) : i < mgridCount b s ↔ (i : Rat) * s < b := by
+  unfold mgridCount
+  rw [Int.lt_toNat, ceilInt_eq, Int.lt_ceil, lt_div_iff₀ hs]
+  simp
+
+theorem mem_mgridAxis (b s : Rat) (hs : 0 < s) (x : Rat) :
+    x ∈ mgridAxis b s ↔ ∃ i : Nat, x = (i : Rat) * s ∧ (i : Rat) * s < b := by
+  unfold mgridAxis
+  simp only [List.mem_map, List.mem_range]
+  constructor
+  · rintro ⟨i, hi, rfl⟩; exact ⟨i, rfl, (lt_mgridCount b s hs i).mp hi⟩
+  · rintro ⟨i, rfl, hi⟩; exact ⟨i, (lt_mgridCount b s hs i).mpr hi, rfl⟩
+
+theorem mgridAxis_length (b s : Rat) : (mgridAxis b s).length = mgridCount b s := by
+  simp [mgridAxis]
+
+theorem mem_product3 (xs ys zs : List Rat) (p : Box) :
+    p ∈ product3 xs ys zs ↔ p.1 ∈ xs ∧ p.2.1 ∈ ys ∧ p.2.2 ∈ zs := by
+  obtain ⟨a, b, c⟩ := p
+  simp only [product3, List.mem_flatMap, List.mem_map, Prod.mk.injEq]
+  constructor
+  · rintro ⟨x, hx, y, hy, z, hz, rfl, rfl, rfl⟩; exact ⟨hx, hy, hz⟩
+  · rintro ⟨hx, hy, hz⟩; exact ⟨a, hx, b, hy, c, hz, rfl, rfl, rfl⟩
+
+theorem product2_length (x : Rat) (ys zs : List Rat) :
+    (ys.flatMap fun y => zs.map fun z => ((x, y, z) : Box)).length = ys.length * zs.length := by
+  induction ys with
+  | nil => simp
+  | cons y ys ih => simp only [List.flatMap_cons, List.length_append, List.length_map, ih, List.length_cons]; ring
+
+theorem product3_length (xs ys zs : List Rat) :
+    (product3 xs ys zs).length = xs.length * (ys.length * zs.length) := by
+  unfold product3
+  induction xs with
+  | nil => simp
+  | cons x xs ih =>
+    simp only [List.flatMap_cons, List.length_append, ih, List.length_cons, product2_length]
+    ring
+
+theorem belowBox_iff (box p : Box) :
+    belowBox box p = true ↔ p.1 < box.1 ∧ p.2.1 < box.2.1 ∧ p.2.2 < box.2.2 := by
+  simp [belowBox, and_assoc]
+
+theorem insideBox_iff (box p : Box) :
+    insideBox box p = true ↔ (0 ≤ p.1 ∧ p.1 < box.1) ∧ (0 ≤ p.2.1 ∧ p.2.1 < box.2.1) ∧ (0 ≤ p.2.2 ∧ p.2.2 < box.2.2) := by
+  simp [insideBox, and_assoc]
+
+/-- whatever the three axis lists are (rounded quotients, rounded products): after the filter every
+point with non-negative coordinates is inside the box -/
+theorem gridFilter_inside (box : Box) (xs ys zs : List Rat)
+    (hx : ∀ x ∈ xs, 0 ≤ x) (hy : ∀ y ∈ ys, 0 ≤ y) (hz : ∀ z ∈ zs, 0 ≤ z) :
+    ∀ p ∈ gridFilter box (product3 xs ys zs), insideBox box p = true := by
+  intro p hp
+  simp only [gridFilter, List.mem_filter] at hp
+  obtain ⟨hm, hb⟩ := hp
+  rw [mem_product3] at hm
+  rw [belowBox_iff] at hb
+  rw [insideBox_iff]
+  exact ⟨⟨hx _ hm.1, hb.1⟩, ⟨hy _ hm.2.1, hb.2.1⟩, ⟨hz _ hm.2.2, hb.2.2⟩⟩
+
+theorem mgridAxis_nonneg (b s : Rat) (hs : 0 < s) : ∀ x ∈ mgridAxis b s, 0 ≤ x := by
+  intro x hx
+  obtain ⟨i, rfl, _⟩ := (mem_mgridAxis b s hs x).mp hx
+  positivity
+
+/-- in exact arithmetic the filter of 28d4aca drops nothing -/
+theorem startGrid_eq_product (box : Box) (s : Rat) (hs : 0 < s) :
+    startGrid box s = product3 (mgridAxis box.1 s) (mgridAxis box.2.1 s) (mgridAxis box.2.2 s) := by
+  unfold startGrid gridFilter
+  rw [List.filter_eq_self]
+  intro p hp
+  rw [mem_product3] at hp
+  rw [belowBox_iff]
+  obtain ⟨i, hi, hi'⟩ := (mem_mgridAxis _ s hs _).mp hp.1
+  obtain ⟨j, hj, hj'⟩ := (mem_mgridAxis _ s hs _).mp hp.2.1
+  obtain ⟨k, hk, hk'⟩ := (mem_mgridAxis _ s hs _).mp hp.2.2
+  rw [hi, hj, hk]
+  exact ⟨hi', hj', hk'⟩
+
+theorem mem_startGrid (box : Box) (s : Rat) (hs : 0 < s) (p : Box) :
+    p ∈ startGrid box s ↔ ∃ i j k : Nat, p = ((i : Rat) * s, (j : Rat) * s, (k : Rat) * s) ∧
+      (i : Rat) * s < box.1 ∧ (j : Rat) * s < box.2.1 ∧ (k : Rat) * s < box.2.2 := by
+  rw [startGrid_eq_product box s hs, mem_product3]
+  simp only [mem_mgridAxis _ s hs]
+  obtain ⟨a, b, c⟩ := p
+  constructor
+  · rintro ⟨⟨i, hi, hi'⟩, ⟨j, hj, hj'⟩, ⟨k, hk, hk'⟩⟩
+    simp only at hi hj hk
+    exact ⟨i, j, k, by rw [hi, hj, hk], hi', hj', hk'⟩
+  · rintro ⟨i, j, k, he, hi, hj, hk⟩
+    simp only [Prod.mk.injEq] at he
+    obtain ⟨rfl, rfl, rfl⟩ := he
+    exact ⟨⟨i, rfl, hi⟩, ⟨j, rfl, hj⟩, ⟨k, rfl, hk⟩⟩
+
+theorem origin_mem_startGrid (box : Box) (s : Rat) (hs : 0 < s)
+    (hb : 0 < box.1 ∧ 0 < box.2.1 ∧ 0 < box.2.2) : ((0, 0, 0) : Box) ∈ startGrid box s := by
+  rw [mem_startGrid box s hs]
+  exact ⟨0, 0, 0, by simp, by simpa using hb.1, by simpa using hb.2.1, by simpa using hb.2.2⟩
+
+theorem startGrid_inside (box : Box) (s : Rat) (hs : 0 < s) :
+    ∀ p ∈ startGrid box s, insideBox box p = true :=
+  gridFilter_inside box _ _ _ (mgridAxis_nonneg _ s hs) (mgridAxis_nonneg _ s hs) (mgridAxis_nonneg _ s hs)
+
+theorem specGrid_startGrid (box : Box) (s : Rat) (hs : 0 < s)
+    (hb : 0 < box.1 ∧ 0 < box.2.1 ∧ 0 < box.2.2) : specGrid box (startGrid box s) = true := by
+  unfold specGrid
+  rw [Bool.and_eq_true]
+  refine ⟨?_, List.all_eq_true.mpr (startGrid_inside box s hs)⟩
+  have := origin_mem_startGrid box s hs hb
+  cases h : startGrid box s with
+  | nil => rw [h] at this; simp at this
+  | cons a t => simp
+
+theorem startGrid_length (box : Box) (s : Rat) (hs : 0 < s) :
+    (startGrid box s).length = mgridCount box.1 s * (mgridCount box.2.1 s * mgridCount box.2.2 s) := by
+  rw [startGrid_eq_product box s hs, product3_length, mgridAxis_length, mgridAxis_length, mgridAxis_length]
 
 theorem retry_spec {P : Type} (walk : Nat → Nat → Mol P → Option (Mol P)) (idx : Nat) (m m' : Mol P) :
     ∀ fuel attempt, retry walk idx m fuel attempt = some m' → ∃ k, walk idx k m = some m' := by
